@@ -406,6 +406,28 @@ def call_shortcut_rule(repo: Repo, rep: Report, rid: str) -> None:
               f"expected {bad[0][3] if bad else ''}: input that ends after the first field would be accepted and the other fields fabricated from defaults", fi.loc())
 
 
+def template_read_check_rule(repo: Repo, rep: Report, rid: str) -> None:
+    rep.rule(rid, "every code template of the generated reader that fetches a sized block checks its length itself: the statements that slice the "
+                  "block are appended after the template, so a template with 'buf = stream.read(N)' and no 'if len(buf) != N: raise EOFError()' lets a "
+                  "short read through (slicing a short buffer yields short values, not an error)")
+    n = 0
+    for t in T.reader_templates(repo):
+        if t.tree is None or t.kind != "stmt":
+            continue
+        body = list(t.tree.body)
+        for i, st in enumerate(body):
+            if not (isinstance(st, ast.Assign) and isinstance(st.value, ast.Call) and call_name(st.value) == "read" and st.value.args
+                    and isinstance(st.targets[0], ast.Name)):
+                continue
+            var, size = st.targets[0].id, norm(st.value.args[0])
+            n += 1
+            checked = any(isinstance(x, ast.If) and always_raises(x.body) and f"len({var})" in norm(x.test) and size in norm(x.test) for x in body[i + 1:])
+            rep.check(checked, rid, f"{t.func.key}:template {short(st, 40)}#{n}", "followed by its length check in the same template",
+                      f"template '{' '.join(t.text.split())[:70]}' of {t.func.qualname} reads {size} bytes into '{var}' without checking len({var}): a block made "
+                      "only of byte-sliced fields (char, char[n], int24 ...) is then accepted from truncated input with shortened values", t.func.loc(t.node))
+    rep.floor(rid, "sized block reads in reader templates", n, 1)
+
+
 def run(repo: Repo, rep: Report, tier: str) -> None:
     R1, R2, R3 = "C08.R1", "C08.R2", "C08.R3"
     rep.rule(R1, "every sized stream.read(n) is length-checked (EOFError on short read) on every path before its result is used")
@@ -492,6 +514,8 @@ def run(repo: Repo, rep: Report, tier: str) -> None:
     from .c07 import array_count_fold_rule
 
     array_count_fold_rule(repo, rep, "C08.R8")
+    template_read_check_rule(repo, rep, "C08.R9")
+
 
 
 
